@@ -256,5 +256,10 @@ func (*treePipeline) handlePipelineErr(ctx context.Context, echs ...<-chan error
 			return nil
 		})
 	}
-	return eg.Wait()
+	if err := eg.Wait(); err != nil {
+		return err
+	}
+	// The stages stop silently when ctx is cancelled and close their channels, which reads
+	// like a normal completion here. Report the cancellation instead of an incomplete success.
+	return ctx.Err()
 }
